@@ -92,7 +92,7 @@ def templates(tier, seed):
     # chains of reuse (an instance that is itself a reuse), computed template ids, templates reading $id
     # templates placed through a transform (polygon, polyline, path), also at offsets that are zero or negative; classes of the
     # reuse element are evaluated where the reuse element stands (before its own bindings apply)
-    for form in ("polygon", "polyline", "path", "class-rebinding", "class-rebinding-loop"):
+    for form in ("polygon", "polyline", "path", "class-rebinding", "class-rebinding-loop", "line", "text", "two-valued-binding", "one-valued-binding"):
         tds.append(dict(fam="reuse-forms2", form=form))
     for form in ("chain-bind", "chain-bind3", "chain-bind-shape", "chain2", "chain2-group", "chain3", "computed-id", "computed-id-loop", "reads-id", "reads-id-class", "reads-id-shadow"):
         tds.append(dict(fam="reuse-forms", form=form))
@@ -361,6 +361,18 @@ def build(td, wrong=False):
             tw = {"polygon": f'<polygon points="0 0 {W} 0 3 {H}"', "polyline": f'<polyline points="0 0 {W} {H}"', "path": f'<path d="M 0 0 h {W} v {H}"'}[form]
             d0 = f'<svg><specs>{tm}</specs><reuse href="#t" w="{W}" h="{H}" x="{X}" y="{Y}"/><reuse href="#t" w="{W}" h="{H}" x="{X}"/></svg>'
             d1 = f'<svg>{tw} transform="translate({X}, {Y})" class="t"/>{tw} transform="translate({X}, 0)" class="t"/></svg>'
+        elif form == "line":
+            d0 = f'<svg><specs><line id="t" xy1="0 0" xy2="$w $h"/></specs><reuse href="#t" w="{W}" h="{H}" x="{X}" y="{Y}"/></svg>'
+            d1 = f'<svg><line xy1="{X} {Y}" xy2="{{{{{X} + {W}}}}} {{{{{Y} + {H}}}}}" class="t"/></svg>'
+        elif form == "text":
+            d0 = f'<svg><specs><text id="t" xy="0 0" text="$lab"/></specs><reuse href="#t" lab="hi" x="{X}" y="{Y}"/></svg>'
+            d1 = f'<svg><text xy="{X} {Y}" text="hi" class="t"/></svg>'
+        elif form == "two-valued-binding":
+            d0 = f'<svg><specs><rect id="t" wh="$size"/></specs><reuse href="#t" size="{W} {H}" x="{X}" y="{Y}"/></svg>'
+            d1 = f'<svg><rect xy="{X} {Y}" wh="{W} {H}" class="t"/></svg>'
+        elif form == "one-valued-binding":
+            d0 = f'<svg><specs><rect id="t" wh="$size"/></specs><reuse href="#t" size="{W}" x="{X}" y="{Y}"/></svg>'
+            d1 = f'<svg><rect xy="{X} {Y}" wh="{W}" class="t"/></svg>'
         elif form == "class-rebinding":
             d0 = f'<svg><var k="1"/><specs><rect id="t" wh="$w $h"/></specs><reuse href="#t" class="lvl-$k" k="{{{{$k + 1}}}}" w="{W}" h="{H}" x="{X}" y="{Y}"/></svg>'
             d1 = f'<svg><rect xy="{X} {Y}" wh="{W} {H}" class="lvl-1 t"/></svg>'
@@ -524,6 +536,10 @@ def build(td, wrong=False):
     role = f"C18/{fam}"
     if fam == "reuse-forms" and td["form"] in ("chain2", "chain2-group", "chain3"):
         role = "C18/nested-reuse-placement-and-size"     # role signature of an open finding
+    if fam == "reuse-forms2" and td["form"] in ("line", "text"):
+        role = "C18/line-and-text-templates"
+    if fam == "reuse-forms2" and td["form"] == "two-valued-binding":
+        role = "C18/two-valued-binding"
     return Template(name, [d0, d1], vars_, check, family=fam, role=role, cap=8, assume=assume)
 
 
